@@ -130,6 +130,13 @@ def run_ctrl_case(spec):
     with warnings.catch_warnings():
         warnings.simplefilter("ignore")
         try:
+            # controller objects are re-used for many runs (e.g. by InversionEnabler): an earlier run
+            # must not influence this one, so the model always starts fresh
+            for i, (v, n2, ninf) in enumerate(spec.get("warm") or []):
+                e = _FakeEnergy(v, n2, ninf)
+                s = ic.start(e) if i == 0 else ic.check(e)
+                if s != ic.CONTINUE:
+                    break
             for i, (v, n2, ninf) in enumerate(seq):
                 e = _FakeEnergy(v, n2, ninf)
                 s = ic.start(e) if i == 0 else ic.check(e)
@@ -362,6 +369,8 @@ def cg_oracle(o):
         return "energy.value %r differs from 1/2 x^H A x - Re b^H x = %r" % (o["value"], E)
     st = o["status"]
     if st == 2:
+        if not sp.get("hpd", True):
+            return None
         return "ERROR reported for a positive definite system with a positive definite preconditioner"
     if st != 0:
         return "status %r returned (neither CONVERGED nor ERROR)" % st
@@ -550,7 +559,21 @@ def gen_cg_spec(rng, i, nmax=10, cplx=False):
     v = rng.random()
     prec = None if v < 0.5 else ([1.0 / d for d in diag] if v < 0.8 else rng.uniform(0.2, 3.0, size=n).tolist())
     spec = {"A": Aenc, "b": b, "x0": x0, "prec": prec, "nreset": int(rng.choice([1, 2, 3, 5, 20])),
-            "ctrl": gen_ctrl(rng, KINDS[i % 5], n), "complex": cplx}
+            "ctrl": gen_ctrl(rng, KINDS[i % 5], n), "complex": cplx, "hpd": True}
+    w = rng.random()
+    if not cplx and w < 0.12:
+        # outside the property's hypothesis: indefinite / singular operator or a preconditioner that is
+        # not positive definite -- exercises the ERROR exits (which must never report CONVERGED)
+        spec["hpd"] = False
+        d = rng.integers(-3, 4, size=n).astype(float)
+        if w < 0.04:
+            spec["A"] = np.diag(d).tolist()
+        elif w < 0.08:
+            spec["A"] = (-np.array(Aenc)).tolist()
+        else:
+            spec["prec"] = (-rng.uniform(0.2, 3.0, size=n)).tolist() if rng.random() < 0.5 else d.tolist()
+        if spec["ctrl"]["limit"] is None:
+            spec["ctrl"]["limit"] = 3 * n
     return spec
 
 
@@ -580,7 +603,11 @@ def gen_ctrl_spec(rng, i):
             v = floor + (v - floor) * float(rng.choice([0.5, 0.1, 0.999999, 1e-6])) if not math.isnan(v) else floor
         g = g * float(rng.choice([0.3, 0.01, 1.0, 1.7, 0.0 if rng.random() < 0.05 else 0.5]))
         seq.append([v, g, g * float(rng.uniform(0.3, 1.0))])
-    return {"ctrl": c, "seq": seq}
+    spec = {"ctrl": c, "seq": seq}
+    if rng.random() < 0.5:
+        g0 = float(10.0 ** int(rng.integers(-6, 6)))
+        spec["warm"] = [[float(rng.normal()), g0 * 0.5 ** k, g0 * 0.4 ** k] for k in range(int(rng.integers(1, 6)))]
+    return spec
 
 
 def gen_ie_specs(rng, quick):
